@@ -2,10 +2,23 @@
 The shims of the value properties are recompiled with clang's own UBSan instrumentation in trap mode and with
 GLM's asserts enabled; every llvm.ubsantrap site and every __assert_fail becomes an assertion that must be
 unreachable under the documented-domain REQUIRES of the corresponding value contract."""
-import importlib, sys
+import importlib, re, sys
 from engine import Prop
 
 P = Prop('C20', 'No undefined behaviour is executed for arguments inside the documented domains')
+
+
+def documented_requires(src, c):
+    """REQUIRES of the value contract, except where the value contract narrows its domain for a reason other than the
+    documentation.  C18: the 32/64-bit bitfieldRotateLeft/Right contracts leave out s == 0 *because* the code shifts by the
+    full width there (nondeterministic in the model); the doc comment (glm/gtc/bitfield.hpp: "Rotate all bits to the right.
+    All the bits dropped in the right side are inserted back on the left side.") does not exclude a rotation by 0, so C20
+    checks 0 <= s < width."""
+    if src == 'C18' and re.match(r'glm_bitfieldRotate(Left|Right)_', c.fn):
+        return [(n, e.replace('(s32)s >= 1 &&', '(s32)s >= 0 &&')) for n, e in c.requires]
+    return c.requires
+
+
 SOURCES = ['C05', 'C07', 'C06', 'C11', 'C14', 'C18', 'C19']
 P.sources_loaded = []
 for src in SOURCES:
@@ -27,8 +40,35 @@ for src in SOURCES:
             ub[key] = P.build(b0.driver, 'ubsan', defines=b0.defines, flags=b0.flags, tag='c20_' + b0.tag + '_ubsan')
         if c.fn not in b0.driver.shims:
             continue
-        P.contract(c.fn, c.real, kind='U', requires=c.requires, ensures=[], build=ub[key], unwind=max(c.unwind if c.unwind < 60 else 1, 12) if src in ('C05',) else c.unwind,
+        # unwinding bound: the -O1 UBSan build keeps the per-component loops (length <= 4) that the flat -O2 build of the value
+        # property unrolls, so a bound of 2 taken over from there trips the unwinding assertion (undecided, never unsound)
+        P.contract(c.fn, c.real, kind='U', requires=documented_requires(src, c), ensures=[], build=ub[key], unwind=max(c.unwind if c.unwind < 60 else 1, 12) if src in ('C05',) else max(c.unwind, 6),
                    backends=('sat',), timeout=c.timeout, tier=c.tier, bounded=c.bounded)
+
+# ---------------------------------------------------------------------------------------------------------------------------
+# Integer abs / sign: the first mechanism the property statement names (glm/detail/func_common.inl: the abs(int) shift/xor
+# trick, compute_abs' `x >= 0 ? x : -x`, compute_sign's `-x >> (width - 1)` trick).  No value property has shims for the integer
+# overloads (C11 is about floats; its not_covered list sends them here), so C20 declares these shims itself.
+# Documented domain: every value of the type - glm/common.hpp: "Returns x if x >= 0; otherwise, it returns -x." (@tparam genType
+# floating-point or signed integer) and "Returns 1.0 if x > 0, 0.0 if x == 0, or -1.0 if x < 0." state no precondition, and GLSL
+# integer arithmetic wraps (GLSL 4.60 section 4.1.3: overflow "will result in the low-order 32 bits of the correct result").
+from shimgen import INT_TYPES, vec_ins, vec_make, vec_store
+_di = P.driver('c20_int', ['<glm/glm.hpp>'])
+_FC = 'glm/detail/func_common.inl'
+_int_shims = []
+for _tag in ('i8', 'i16', 'i32', 'i64'):
+    _cpp = INT_TYPES[_tag][0]
+    for _f in ('abs', 'sign'):
+        _di.shim('glm_%s_%s_s' % (_f, _tag), _cpp, [(_cpp, 'x')], 'return glm::%s(x);' % _f)
+        _int_shims.append(('glm_%s_%s_s' % (_f, _tag), 'glm::%s<%s>  %s' % (_f, _cpp, _FC)))
+        if _tag in ('i32', 'i64'):
+            _di.shim('glm_%s_%s_v4' % (_f, _tag), 'void', vec_ins(4, _tag, 'x'),
+                     'auto r = glm::%s(%s); %s' % (_f, vec_make(4, _tag, 'x'), vec_store(4, 'r')), outs=[(_cpp, 'out', 4)])
+            _int_shims.append(('glm_%s_%s_v4' % (_f, _tag), 'glm::%s(vec<4,%s>)  %s' % (_f, _cpp, _FC)))
+_bi = P.build(_di, 'ubsan', tag='c20_int_ubsan')
+for _fn, _real in _int_shims:
+    # requires=[]: the documentation states no precondition, so the domain is all values of the type
+    P.contract(_fn, _real, kind='U', requires=[], ensures=[], build=_bi, unwind=6, backends=('sat',), timeout=300)
 
 P.level_text = ('for every shim of the value properties, under the documented-domain precondition, every UBSan check that clang itself '
                 'inserts (signed overflow, shift, division by zero, float-to-int range, bounds, alignment, null, bool/enum load, '
@@ -39,4 +79,4 @@ P.level_note = ('oracle = clang-14 -fsanitize=undefined,float-cast-overflow in t
 P.technique = 'CBMC reachability of compiler-inserted UBSan trap sites under contract preconditions (DFCC enforce)'
 P.design_ref = 'DESIGN.md section 6 C20'
 P.assumptions = ['documented domain = the REQUIRES clauses of the value contracts (taken from doc comments / GLSL text); where the documentation is silent the domain is all values of the type']
-P.not_covered = ['UB classes invisible to UBSan', 'functions without a shim in C05/C06/C07/C11/C14/C18/C19', 'optimisation-level independence is the C15 relational check']
+P.not_covered = ['UB classes invisible to UBSan', 'functions without a shim in C05/C06/C07/C11/C14/C18/C19 (except integer abs/sign, declared here)', 'optimisation-level independence is the C15 relational check']
